@@ -60,17 +60,20 @@ class ListBuilder(Periodic):
                                 local_set.add(bytes.fromhex(pubkey))
                                 pubkey_count += 1
                     event_count += 1
-                global_set.clear()
+                if list_kind == "allow" and local_set and self.initial:
+                    # add the preconfigured keys
+                    local_set.update(bytes.fromhex(p) for p in self.initial)
+                # validators read these sets from other threads: never let a list that
+                # has entries look empty (= not enforced) while it is being refreshed.
+                # Add the new entries first, then drop the stale ones.
                 global_set.update(local_set)
+                global_set.intersection_update(local_set)
                 self.log.info(
                     "Loaded %s list with %d pubkeys from %d events",
                     list_kind,
                     pubkey_count,
                     event_count,
                 )
-        if ALLOWED_PUBKEYS and self.initial:
-            # add the preconfigured keys
-            ALLOWED_PUBKEYS.update(bytes.fromhex(p) for p in self.initial)
 
     async def start(self):
         if self.options:
